@@ -33,8 +33,8 @@ def P(name):
 
 def _file(ctx, ai, type_, tracks, tpb):
     cls = ctx.p.cls(MF, 'MidiFile')
-    return AObj(cls, {'type': type_, 'tracks': tracks, 'ticks_per_beat': tpb, 'charset': 'latin1', 'debug': False, 'clip': False,
-                      'filename': None}, name='midifile')
+    from ..fold import ClassRef
+    return ai.apply(ClassRef(cls), [], {'type': type_, 'ticks_per_beat': tpb, 'tracks': tracks}, None)
 
 
 def _track(ai, ctx):
